@@ -5,6 +5,9 @@ import json, os, re, shutil, subprocess, sys, tempfile
 from concurrent.futures import ThreadPoolExecutor
 VERIF = os.path.dirname(os.path.dirname(os.path.abspath(__file__)))
 PROPS = [c["property_id"] for c in json.load(open(os.path.join(VERIF, "MANIFEST.json")))["checks"]]
+if os.environ.get("REFACTOR_PROPS"):
+    # re-run after a rule change: only the checks named here (space separated)
+    PROPS = [p for p in PROPS if p in os.environ["REFACTOR_PROPS"].split()]
 
 
 def one(ddir):
